@@ -222,6 +222,19 @@ theorem getItemB_eq {β : Type} (src : Source (List β)) (h : SrcOK src) (r : Re
   unfold getItemB
   rw [h3]
 
+theorem getItemOps_eq {β : Type} (src : Source (List β)) (h : SrcOK src) (r : Reader (List β))
+    (hr : build src = some r) (it : Item) (hd : InDom src.concat.length it) (ops : List ColSel)
+    (hoff : src.backend = .cbin → it.isList = false) :
+    ∃ rows, npRows src.concat it = some rows ∧ rows ≠ [] ∧
+      getItemOps r it ops = .ok (rows.map (applyCols ops)) := by
+  obtain ⟨r', hr', b⟩ := build_built src h
+  rw [hr] at hr'; cases hr'
+  have hd' : InDom r.store.flatten.length it := by rw [b.store]; exact hd
+  obtain ⟨rows, h1, h2, h3⟩ := getRowsB_eq r b.partBounds it hd' (by rw [b.backend]; exact hoff)
+  refine ⟨rows, by rw [← b.store]; exact h1, h2, ?_⟩
+  unfold getItemOps
+  rw [h3]
+
 theorem getItemB_refused {β : Type} (src : Source (List β)) (h : SrcOK src) (r : Reader (List β))
     (hr : build src = some r) (hbe : src.backend = .cbin) (l : List Int)
     (hd : InDom src.concat.length (.list l)) (c : ColSel) :
